@@ -31,7 +31,7 @@ harness! {
 }
 
 harness! {
-    #[kani::unwind(18)]
+    #[kani::unwind(40)]
     fn q09_transpose_ba64_64x64() {
         // the 64x64 shape built on the 16x16 kernel; the destination starts as arbitrary garbage
         let src_raw: [[u8; 8]; 64] = unsafe { std::mem::transmute::<[u8; 512], _>(kani::any()) };
@@ -50,4 +50,12 @@ harness! {
         assert!(d == s, "dst[j][i] == src[i][j], whatever the destination held before");
         kani::cover!(true);
     }
+}
+
+// native replay slot (cargo kani playback): the driver points IPA_VERIF_REPLAY_DIR at a directory
+// holding one file per hook; the generated test calls the harness by its path relative to this module.
+#[cfg(test)]
+mod replay_here {
+    use super::*;
+    include!(concat!(env!("IPA_VERIF_REPLAY_DIR"), "/transpose.rs"));
 }
